@@ -555,7 +555,8 @@ def main(prop, own_codes, gen_params, rule, manifest_trusted, argv=None):
     import time
     args = K.parse_args(argv)
     rep = K.Reporter(prop, args.tier, args.seed)
-    info, broken = K.standard_prelude(prop, rep, extra_targets=EXTRA_TARGETS)
+    info, broken = K.standard_prelude(prop, rep, extra_targets=EXTRA_TARGETS,
+                                      whitelist=("FunctionalExtensionality.functional_extensionality_dep",))
     rng = random.Random(args.seed)
     t0 = time.time()
     if args.replay:
